@@ -2135,6 +2135,7 @@ class Tensor(object):
         self._cp_to_tt()
         start = time.time()
         self.orthogonalize(N - 1)  # Make everything left-orthogonal
+        self.factor_orthogonalize(N - 1)  # The error budget is measured on the last core
         if verbose:
             print("Orthogonalization time:", time.time() - start)
         if self.batch:
